@@ -47,6 +47,11 @@ Spatials == {[comb |-> None, orig |-> None, dest |-> None, orig2 |-> None]}
    \cup {[comb |-> None, orig |-> None, dest |-> s, orig2 |-> None] : s \in SpatialValues}
    \cup {[comb |-> None, orig |-> s, dest |-> t, orig2 |-> None] : s \in {Sp("country", {"US"}), Sp("airport", {"A1"}), Sp("bbox", {"B1"})},
                                                                    t \in {Sp("continent", {"NA"}), Sp("airport", {"A2", "A3"}), Sp("country", {"CA", "FR"})}}
+   \* the same kind of condition on both ends
+   \cup {[comb |-> None, orig |-> s, dest |-> t, orig2 |-> None] : s, t \in {Sp("continent", {"NA"}), Sp("continent", {"EU"})}}
+   \cup {[comb |-> None, orig |-> s, dest |-> t, orig2 |-> None] : s, t \in {Sp("country", {"US"}), Sp("country", {"CA", "FR"})}}
+   \cup {[comb |-> None, orig |-> s, dest |-> t, orig2 |-> None] : s, t \in {Sp("airport", {"A1"}), Sp("airport", {"A2", "A3"})}}
+   \cup {[comb |-> None, orig |-> s, dest |-> t, orig2 |-> None] : s, t \in {Sp("bbox", {"B1"}), Sp("bbox", {"B3"})}}
    \cup {[comb |-> Sp("country", {"US"}), orig |-> Sp("airport", {"A1"}), dest |-> None, orig2 |-> None],
          [comb |-> Sp("bbox", {"B1"}), orig |-> None, dest |-> Sp("continent", {"NA"}), orig2 |-> None],
          [comb |-> None, orig |-> Sp("airport", {"A1"}), dest |-> None, orig2 |-> Sp("country", {"US"})]}
